@@ -100,7 +100,7 @@ class Exploration:
         for k in range(s.K):
             e.stepno = k
             runnable = [runnable_g(t) for t in range(NT)]
-            if s.cfg.get('opts', {}).get('dbg_hist'): s.dbg_hist.append((runnable, [(e.tstate[t].get('parked', False), list(e.tstate[t].get('park', []))) for t in range(NT)], [{c: g for c, (g, _e) in ctrl[t].items()} for t in range(NT)]))
+            if s.cfg.get('opts', {}).get('dbg_hist'): s.dbg_hist.append((runnable, [(e.tstate[t].get('parked', False), list(e.tstate[t].get('park', []))) for t in range(NT)], [{c: g for c, (g, _e) in ctrl[t].items()} for t in range(NT)], e.tstate[NT].get('now', 0), [dict(e.tstate[t]) for t in range(NT)]))
             if all(r is False for r in runnable): break
             if s.concrete is not None:
                 sch = s.concrete['schedule']; sk = sch[k] if k < len(sch) else NT
